@@ -25,6 +25,7 @@ def run(ctx):
     ctx.each(informational, ctx, repo)
     ctx.each(r07e, ctx, repo)
     ctx.each(r07g, ctx, repo)
+    ctx.each(r07i, ctx, repo)
     ctx.each(flowalg.share_rule, ctx, repo, "R07h")  # people placed in a junction by the databook are passed on in full by the initial flush
     ctx.each(flowalg.accumulator_rule, ctx, repo, "R07f", [("model", "Characteristic.update"), ("model", "Characteristic.vals")], 4, "the characteristic sums")
 
@@ -304,3 +305,26 @@ def r07g(ctx, repo):
         j, c = (ast.unparse(e) for e in l.target.elts)
         ok = ast.unparse(wb[0].targets[0].value) == c and ast.unparse(wb[0].value) in ("max(0.0, x[%s])" % j, "max(0, x[%s])" % j, "max(x[%s], 0.0)" % j, "max(x[%s], 0)" % j) and not guards_of(wb[0], stop=l)
     ctx.check(ok, "R07g", fi, wb[0] if wb else fi.node, "compartment i starts at max(0, x_i)", "the solution is not written back as `c[0] = max(0.0, x[i])` for (i, c) in enumerate(comps): compartments receive another compartment's size", stmt_text="write-back")
+
+
+def r07i(ctx, repo):
+    ctx.rule("R07i", "the compartments a characteristic stands for are derived from its members when asked, not remembered: Characteristic.get_included_comps reads nothing of self but `includes`, walks every member, descends into member characteristics and collects the others - a flattened copy kept on the object would depend on the order in which characteristics were wired up (a characteristic listed before one of its members would silently miss that member's compartments in the initialisation matrix)")
+    fi = repo.func("model", "Characteristic.get_included_comps")
+    me = K.self_name(fi)
+    reads = {n.attr for n in own_nodes(fi.node) if isinstance(n, ast.Attribute) and astq.is_name(n.value, me)}
+    ok = reads <= {"includes", "get_included_comps"}
+    ctx.check(ok, "R07i", fi, fi.node, "get_included_comps depends on self.includes only", "Characteristic.get_included_comps reads `self.%s`: the expansion is taken from state kept on the object instead of from the current members" % ", self.".join(sorted(reads - {"includes", "get_included_comps"})), stmt_text="reads")
+    lp = [l for l in own_nodes(fi.node) if isinstance(l, ast.For) and ast.unparse(l.iter) == "%s.includes" % me]
+    ok = len(lp) == 1 and isinstance(lp[0].target, ast.Name)
+    if ok:
+        v = lp[0].target.id
+        rec = [c for c in ast.walk(lp[0]) if isinstance(c, ast.Call) and ast.unparse(c.func) == "%s.get_included_comps" % v]
+        app = [c for c in ast.walk(lp[0]) if isinstance(c, ast.Call) and isinstance(c.func, ast.Attribute) and c.func.attr == "append" and c.args and ast.unparse(c.args[0]) == v]
+        ok = len(rec) == 1 and len(app) == 1 and any(pol and ast.unparse(t) == "isinstance(%s, Characteristic)" % v for t, pol in guards_of(enclosing_stmt(rec[0]), stop=lp[0])) and any((not pol) and ast.unparse(t) == "isinstance(%s, Characteristic)" % v for t, pol in guards_of(enclosing_stmt(app[0]), stop=lp[0]))
+    ctx.check(ok, "R07i", fi, lp[0] if lp else fi.node, "every member is expanded (characteristics recursively) or collected", "Characteristic.get_included_comps does not walk self.includes, descending into member characteristics and collecting compartments", stmt_text="walk")
+    ai = repo.func("model", "Characteristic.add_include")
+    me2 = K.self_name(ai)
+    stores = [s for s, t, k, v in astq.stores(ai.node) if k in ("assign", "aug") and isinstance(astq.strip_subs(t), ast.Attribute) and astq.is_name(astq.strip_subs(t).value, me2)]
+    muts = [c for c in own_nodes(ai.node) if isinstance(c, ast.Call) and isinstance(c.func, ast.Attribute) and c.func.attr in ("append", "extend", "insert", "add", "update") and ast.unparse(c.func.value).startswith(me2 + ".")]
+    ok = not stores and len(muts) == 1 and ast.unparse(muts[0].func.value) == "%s.includes" % me2
+    ctx.check(ok, "R07i", ai, ai.node, "add_include only records the member", "Characteristic.add_include maintains more than the list of members (%s): derived data kept at wiring time depend on the wiring order" % ", ".join([norm(s)[:40] for s in stores] + [ast.unparse(c)[:40] for c in muts[1:]]), stmt_text="add_include")
